@@ -26,6 +26,7 @@ class Opts:
         self.qualify = None           # write unqualified table names as <qualify>.<name>
         self.where_op = "in"
         self.names_pool = None        # list of alias names used in order (JSON-friendly form of names)
+        self.alias_scope = "global"   # "local": alias numbering restarts in every query scope (aliases re-used across scopes)
         self.__dict__.update(kw)
         if self.names_pool and not self.names:
             pool = list(self.names_pool)
@@ -38,6 +39,7 @@ class R:
         self.o = opts
         self.pos = 0
         self.n_alias = 0
+        self.scopes = [0]
         self.toks = []
 
     def ident(self, s):
@@ -54,10 +56,15 @@ class R:
         return s.upper() if self.o.kw_upper else s
 
     def alias(self):
-        self.n_alias += 1
+        if self.o.alias_scope == "local":
+            self.scopes[-1] += 1
+            n = self.scopes[-1]
+        else:
+            self.n_alias += 1
+            n = self.n_alias
         if self.o.names:
-            return self.o.names(self.n_alias)
-        return "q%d" % self.n_alias
+            return self.o.names(n)
+        return "q%d" % n
 
     def tname(self, ev):
         schema, name = ev["b"], ev["c"]
@@ -79,6 +86,7 @@ class R:
         """parse branches until 'end'; returns token list"""
         branches = []
         cur = {"from": [], "where": None, "isub": None, "having": None}
+        self.scopes.append(0)
         while True:
             ev = self.p[self.pos]
             self.pos += 1
@@ -88,6 +96,8 @@ class R:
             elif e == "sub":
                 q = self.query()
                 cur["from"].append((ev["a"], self.with_alias(["("] + q + [")"])))
+            elif e == "paren":
+                cur["from"].append((ev["a"], ["("] + self.from_list(self.paren_items()) + [")"]))
             elif e == "where":
                 cur["where"] = self.query()
             elif e == "isub":
@@ -97,8 +107,10 @@ class R:
             elif e == "union":
                 branches.append(cur)
                 cur = {"from": [], "where": None, "isub": None, "having": None}
+                self.scopes[-1] = 0          # every branch of a set operation is a scope of its own
             elif e == "end":
                 branches.append(cur)
+                self.scopes.pop()
                 break
             else:
                 raise ValueError(e)
@@ -114,6 +126,24 @@ class R:
             out += [self.kw("from")] + self.from_list(b["from"])
             out += self.tail(b)
         return out
+
+    def paren_items(self):
+        items = []
+        while True:
+            ev = self.p[self.pos]
+            self.pos += 1
+            e = ev["e"]
+            if e in ("tbl", "cteref"):
+                items.append((ev["a"], self.with_alias(self.tname(ev), force=False)))
+            elif e == "sub":
+                q = self.query()
+                items.append((ev["a"], self.with_alias(["("] + q + [")"])))
+            elif e == "paren":
+                items.append((ev["a"], ["("] + self.from_list(self.paren_items()) + [")"]))
+            elif e == "end":
+                return items
+            else:
+                raise ValueError("paren: " + e)
 
     def from_list(self, items):
         out = []
@@ -190,6 +220,8 @@ class R:
             elif e == "sub":
                 q = self.query()
                 cur["from"].append((ev["a"], self.with_alias(["("] + q + [")"])))
+            elif e == "paren":
+                cur["from"].append((ev["a"], ["("] + self.from_list(self.paren_items()) + [")"]))
             elif e == "where":
                 cur["where"] = self.query()
             elif e == "end":
